@@ -14,9 +14,11 @@ static void g2def_run(Ctx& c) {
     g.beta_hi = c.thorough() ? 60.0 : 20.0; g.hetero = true;
     g.pclasses = {"generic", "integers", "equal", "atomic", "negU", "ph", "free", "neardeg", "zero", "atomic", "free", "ph"};   // degenerate classes over-represented
     ModelSpec m = gen_model(r, g);
-    const bool cold = (c.k % 8 == 5);       // beta*(level spacing) of several hundred to a few thousand: weights underflow, exp(beta*dE) overflows
+    const bool witness18 = (c.k == 9);      // fixed input of finding #18: Hubbard dimer with Zeeman fields 1e-8 / 4e-9, symmetries ignored
+    if (witness18) m = finding18_model(false);
+    const bool cold = !witness18 && (c.k % 8 == 5);       // beta*(level spacing) of several hundred to a few thousand: weights underflow, exp(beta*dE) overflows
     if (cold) m.beta = r.logu(150, 1500);
-    int pmode = (c.k % 4 == 3) ? PM_IGNORE : PM_DEFAULT;
+    int pmode = (c.k % 4 == 3 || witness18) ? PM_IGNORE : PM_DEFAULT;
     if (!m.balanced_spins()) pmode = PM_IGNORE;
     Pipeline p; p.build_lattice(m);
     CMat Href = p.ref_H(); RefED ed; ed.solve(Href);
@@ -25,8 +27,8 @@ static void g2def_run(Ctx& c) {
     const int N = p.N; const double beta = m.beta;
     c.model = m.describe(); c.canon = m.canon() + "|" + pm_name(pmode) + (cold ? "|cold" : "");
     Pipeline::LibBasis lb = p.lib_basis();
-    G2Tol gt; gt.prepare(lb.E, beta);
-    c.features.set("cold", cold).set("partition", pm_name(pmode)).set("N", N).set("pclass", m.pclass).set("near_coincident_poles", gt.near).set("blocks", p.nblocks());
+    G2Tol gt; gt.prepare(lb.E, beta, &lb.block);
+    c.features.set("merge_vs_resonance_window", gt.straddle).set("cold", cold).set("partition", pm_name(pmode)).set("N", N).set("pclass", m.pclass).set("near_coincident_poles", gt.near).set("blocks", p.nblocks());
 
     // index quadruples
     std::vector<std::array<int, 4>> quads;
@@ -82,7 +84,7 @@ static void g2def_run(Ctx& c) {
             if (n1 == n3) ++n13; if (n2 == n3) ++n23; if (n1 + n2 == -1) ++nbz;
             auto det = [&] { return qs + "(" + std::to_string(n1) + "," + std::to_string(n2) + "," + std::to_string(n3) + ") beta=" + fmt(beta) + " " + pk + " pclass=" + m.pclass; };
             cd la = (*A)(n1, n2, n3);
-            c.cmp("ondemand-vs-definition", "C02:ondemand-vs-definition:" + fk + ":" + qk, la, ref[t], tol, det);
+            c.cmp("ondemand-vs-definition", gt.straddle ? "C02:ondemand-vs-definition:merge-vs-resonance-window" : "C02:ondemand-vs-definition:" + fk + ":" + qk, la, ref[t], tol, det);
             cd lz = (*A)(cd(0, wn(n1)), cd(0, wn(n2)), cd(0, wn(n3)));
             c.cmp("long-vs-complex-overload", "C02:long-vs-complex-overload", lz, la, 1e-12 * std::max(S, Sfloor), det);
         }
